@@ -100,7 +100,7 @@ pub fn run(prop: &'static str, tier: &str, seed: u64) -> i32 {
     }
     if prop == "C11" {
         // limit and heartbeat through the HTTP front end (pulses flow before the n-th frame exists)
-        let n_http = if t { 120 } else { 8 };
+        let n_http = if t { 160 } else { 16 };
         let http: Vec<Value> = run_cases(n_http, 8, move |i| crate::e2h::http_limit_round(crate::rng::mix(seed, 99_000 + i as u64)));
         results.push(http);
     }
@@ -109,6 +109,10 @@ pub fn run(prop: &'static str, tier: &str, seed: u64) -> i32 {
         let n_http = if t { 120 } else { 6 };
         let http: Vec<Value> = run_cases(n_http, 6, move |i| crate::e2h::http_follow_round(crate::rng::mix(seed, 88_000 + i as u64)));
         results.push(http);
+        // ... and through the command-line client with a slow consumer on its stdout
+        let n_cli = if t { 24 } else { 3 };
+        let cli: Vec<Value> = run_cases(n_cli, 3, move |i| crate::e2h::cli_follow_round(crate::rng::mix(seed, 89_000 + i as u64)));
+        results.push(cli);
     }
     if prop == "C02" {
         // the same property through the HTTP front end (parallel connections, NDJSON and SSE pollers)
@@ -194,7 +198,13 @@ pub fn run(prop: &'static str, tier: &str, seed: u64) -> i32 {
             }
             if r["http_limit_round"] == true {
                 rep.count("http_limit_rounds", 1);
+                if r["via_client"] == true {
+                    rep.count("http_limit.rounds_through_the_client_library", 1);
+                }
                 rep.count("http_limit.pulses_delivered_before_the_nth_frame", r["pulses_before_the_nth_frame"].as_u64().unwrap_or(0));
+            }
+            if r["cli_follow_round"] == true {
+                rep.count("cli_follow_rounds", 1);
             }
             if r["http_follow_round"] == true {
                 rep.count("http_follow_rounds", 1);
